@@ -33,7 +33,7 @@ def run(tier, t0):
     runs = [("chains", "Gram_full.cfg" if thorough else "Gram_quick.cfg", None),
             ("forks", "Gram_forks_full.cfg" if thorough else "Gram_forks_quick.cfg", None)]
     if thorough:
-        runs.append(("random", "Gram_deep.cfg", 20000))
+        runs.append(("random", "Gram_deep.cfg", 60))   # per worker; TLC evaluates every successor along each random walk
     for mode, cfg, sim in runs:
         r = vlib.run_tlc("MiluGrammar", cfg, workers=8, timeout=3000, xmx="12g", simulate=sim, depth=6 if sim else None,
                          seed_val=seed if sim else None, name="gram_" + mode)
